@@ -49,7 +49,30 @@ fn viol(driver: &str, class: String, text: &str, o: &Obs) -> Violation {
 }
 
 pub fn replay(case: &Value) -> Option<Violation> {
+    if let (Some("cli"), Some(bytes)) = (case.get("kind").and_then(|k| k.as_str()), case.get("bytes").and_then(|b| b.as_array())) {
+        let bytes: Vec<u8> = bytes.iter().filter_map(|x| x.as_u64().map(|v| v as u8)).collect();
+        let mode = case.get("mode").and_then(|m| m.as_str()).unwrap_or("file");
+        return cli_verdict_bytes(mode, &bytes).err().map(|(class, observed)| Violation {
+            property: "C05".into(),
+            driver: "replay".into(),
+            class: format!("{class}:not-utf8"),
+            case: case.clone(),
+            expected: "the program reports input it cannot read and ends in an orderly way".into(),
+            observed,
+        });
+    }
     let text = case.get("text")?.as_str()?;
+    if case.get("kind").and_then(|k| k.as_str()) == Some("cli") {
+        let mode = case.get("mode").and_then(|m| m.as_str()).unwrap_or("file");
+        return cli_verdict(mode, text).err().map(|(class, observed)| Violation {
+            property: "C05".into(),
+            driver: "replay".into(),
+            class,
+            case: case.clone(),
+            expected: "the program prints a value or an error for every input and ends with exit code 0 when its input ends".into(),
+            observed,
+        });
+    }
     let budget = case.get("budget").and_then(|b| b.as_u64()).unwrap_or(5_000_000);
     if case.get("shallow").and_then(|b| b.as_bool()) == Some(true) {
         let o = crate::engine::run_eval_shallow(text, budget);
@@ -494,6 +517,8 @@ pub fn run_check(ctx: &Ctx) -> Report {
          truncation of the corpus programs at EVERY byte offset (complete) and of generated programs at random offsets; random Unicode / byte noise; a directed corpus of boundary programs (huge and boundary literals, zero divisors, \
          wrong-arity calls, misplaced antwoord/stop/volgende, self-referential initialisers, non-ASCII indexing, comparisons of arrays/functions, cyclic arrays in every builtin, unterminated constructs, lone operators, every prefix of every keyword, \
          256 arguments, >65 535 constants / locals / code bytes, unbounded recursion) and deep nesting (100 ... 100 000 levels of one construct, and combinations of 14 nesting constructs with operator chains whose syntax tree is far deeper than any single nesting; evaluated on a thread with the platform's default 8 MB stack). \
+         the command-line program built from the same tree (src/bin/nederlang.rs) is given the directed corpus, generated inputs and the lines of generated sessions both as a file argument and through the prompt (standard input, closed at the end): \
+         it must end with exit code 0 for every input that ends by itself (pre-filter: the library finishes it within the instruction budget), never by a panic or a signal, and must end when its input ends. \
          oracle: nederlang::eval returns a value or one of the five error kinds (or is stopped by the instruction budget); a panic, a hook event, a dead process or a front end that does not terminate is a violation. \
          non-trivial = input with >=3 tokens that is not a verbatim corpus member; distinct by text",
     );
@@ -653,7 +678,255 @@ pub fn run_check(ctx: &Ctx) -> Report {
     if let Some(h) = plain_run {
         out.merge(h.join().expect("inner run"));
     }
+    if !plain {
+        cli_driver(&mut out, ctx);
+    }
     out
+}
+
+// ---------------------------------------------------------------------------------------
+// the command-line program (src/bin/nederlang.rs): a file argument, and the interactive prompt fed through a pipe
+
+fn cli_exe() -> std::path::PathBuf {
+    crate::report::verif_dir().join("work/cli-target/debug/nederlang")
+}
+
+/// how a run of the command-line program ended
+#[derive(Debug, Clone, PartialEq)]
+enum CliEnd {
+    Exit(i32),
+    Signal(i32),
+    StillRunning,
+}
+
+/// Runs the program with the given arguments and standard input (closed after the text); waits at most `limit`
+fn cli_run(args: &[&str], stdin: &[u8], limit: std::time::Duration) -> (CliEnd, String) {
+    use std::io::{Read, Write};
+    use std::os::unix::process::{CommandExt, ExitStatusExt};
+    // under coreutils' timeout, so that the program cannot outlive a harness that is killed while it waits; both in a
+    // process group of their own, which is killed as a whole when the limit is reached
+    let mut child = match std::process::Command::new("timeout")
+        .process_group(0)
+        .arg("--signal=KILL")
+        .arg("150")
+        .arg(cli_exe())
+        .args(args)
+        .stdin(std::process::Stdio::piped())
+        .stdout(std::process::Stdio::null())
+        .stderr(std::process::Stdio::piped())
+        .spawn()
+    {
+        Ok(c) => c,
+        Err(e) => {
+            eprintln!("C05: cannot run {}: {e} (the check script builds it)", cli_exe().display());
+            std::process::exit(2)
+        }
+    };
+    if let Some(mut si) = child.stdin.take() {
+        let _ = si.write_all(stdin);
+        // dropping the handle closes the pipe: end of input
+    }
+    let mut err = child.stderr.take();
+    let reader = std::thread::spawn(move || {
+        let mut text = Vec::new();
+        if let Some(e) = err.as_mut() {
+            let _ = e.take(1 << 16).read_to_end(&mut text);
+            // keep draining so that the child never blocks on a full pipe
+            let _ = std::io::copy(e, &mut std::io::sink());
+        }
+        String::from_utf8_lossy(&text).to_string()
+    });
+    let started = std::time::Instant::now();
+    let end = loop {
+        match child.try_wait() {
+            Ok(Some(st)) => break st.code().map(CliEnd::Exit).unwrap_or_else(|| CliEnd::Signal(st.signal().unwrap_or(0))),
+            Ok(None) => {
+                if started.elapsed() > limit {
+                    let _ = std::process::Command::new("kill").arg("-KILL").arg("--").arg(format!("-{}", child.id())).status();
+                    let _ = child.kill();
+                    let _ = child.wait();
+                    break CliEnd::StillRunning;
+                }
+                std::thread::sleep(std::time::Duration::from_millis(2));
+            }
+            Err(_) => break CliEnd::Signal(0),
+        }
+    };
+    let text = reader.join().unwrap_or_default();
+    (end, text)
+}
+
+/// verdict on one finite input (every line of which the library evaluates within the instruction budget)
+fn cli_verdict(mode: &str, text: &str) -> Result<(), (String, String)> {
+    cli_verdict_bytes(mode, text.as_bytes())
+}
+
+/// the input as bytes: a file or a pipe can hold anything, also what is not UTF-8
+fn cli_verdict_bytes(mode: &str, text: &[u8]) -> Result<(), (String, String)> {
+    let file = crate::report::verif_dir().join(format!("work/cli-input-{}-{:?}.nl", std::process::id(), std::thread::current().id()).replace(['(', ')'], ""));
+    let run = |limit: u64| -> (CliEnd, String) {
+        if mode == "file" {
+            let _ = std::fs::write(&file, text);
+            let r = cli_run(&[file.to_str().unwrap_or("")], b"", std::time::Duration::from_secs(limit));
+            let _ = std::fs::remove_file(&file);
+            r
+        } else {
+            cli_run(&[], text, std::time::Duration::from_secs(limit))
+        }
+    };
+    let (mut end, mut err) = run(10);
+    if end == CliEnd::StillRunning {
+        // once more with a long limit: only then it counts
+        let r = run(60);
+        end = r.0;
+        err = r.1;
+    }
+    let short: String = err.lines().filter(|l| l.contains("panicked") || l.contains("overflow") || l.contains("Error")).take(2).collect::<Vec<_>>().join(" | ").chars().take(300).collect();
+    match end {
+        // (0 is what the program uses today; any small code is an orderly end - a panic is 101, a signal shows as such)
+        CliEnd::Exit(c) if (0..100).contains(&c) && !err.contains("panicked at") => Ok(()),
+        CliEnd::Exit(c) if c > 128 => Err((format!("cli-{mode}:signal"), format!("signal {}: {short}", c - 128))),
+        CliEnd::Exit(c) => Err((format!("cli-{mode}:exit-{c}"), format!("exit code {c}: {short}"))),
+        CliEnd::Signal(s) => Err((format!("cli-{mode}:signal"), format!("signal {s}: {short}"))),
+        CliEnd::StillRunning => Err((format!("cli-{mode}:does-not-end"), "still running 60 s after its (finite) input ended".into())),
+    }
+}
+
+/// every line finishes within the budget when a retained compiler and machine evaluate the lines one by one (what the prompt does)
+fn lines_finish(text: &str) -> bool {
+    let mut s = crate::engine::session_begin();
+    let mut ok = true;
+    for l in text.split('\n') {
+        let o = s.line(l, 300_000);
+        if o.outcome == Outcome::Budget {
+            ok = false;
+            break;
+        }
+    }
+    s.end();
+    crate::engine::install_gc_observer();
+    ok
+}
+
+fn cli_driver(rep: &mut Report, ctx: &Ctx) {
+    let corpus = corpus_programs();
+    let mut faulty = Profile::general();
+    faulty.fault = 200;
+    let profiles = vec![Profile::general(), Profile::calls(), faulty];
+    // inputs: the directed corpus, lines of generated sessions, generated inputs of every kind
+    let mut inputs: Vec<(String, String)> = directed().into_iter().filter(|(f, _)| f != "limits" && f != "recursion").map(|(f, t)| (format!("directed:{f}"), t)).collect();
+    inputs.push(("directed:empty".into(), String::new()));
+    inputs.push(("directed:no-final-newline".into(), "1 + 1".into()));
+    inputs.push(("directed:blank-lines".into(), "\n\n\n".into()));
+    inputs.push(("directed:error-then-more".into(), "1 +\nonbekend\n1 / 0\nstel a = 2\na + 1\n".into()));
+    let n = ctx.pick(1_200u32, 20_000u32);
+    let mut runner = crate::tape::runner(ctx.seed.wrapping_mul(472_882_027), 1);
+    {
+        use proptest::prelude::RngCore;
+        for k in 0..n {
+            let mut tape = vec![0u8; 400];
+            runner.rng().fill_bytes(&mut tape);
+            if k % 3 == 0 {
+                let lines = crate::props::c17::gen_session(&tape);
+                let text: String = lines.iter().filter(|l| l.cut.is_none()).map(|l| l.text() + "\n").collect();
+                inputs.push(("session-lines".into(), text));
+            } else {
+                let (text, kind) = gen_input(&tape, &corpus, &profiles);
+                inputs.push((format!("generated:{kind}"), text));
+            }
+        }
+    }
+    // inputs that are not UTF-8 (a file or a pipe can hold anything)
+    let mut raw: Vec<Vec<u8>> = vec![b"\xff\xfe 1".to_vec(), b"1\n\xff\n2\n".to_vec(), b"\xc3(".to_vec(), b"print(1)\n\x80".to_vec(), b"\"\xed\xa0\x80\"".to_vec(), vec![0xf8, 0x88, 0x80, 0x80, 0x80]];
+    {
+        use proptest::prelude::RngCore;
+        for _ in 0..ctx.pick(60u32, 1_000u32) {
+            let mut b = vec![0u8; 1 + (runner.rng().next_u32() % 40) as usize];
+            runner.rng().fill_bytes(&mut b);
+            // mostly text with a few arbitrary bytes in it
+            if runner.rng().next_u32() % 2 == 0 {
+                let mut t = b"stel a = 1\nprint(a)\n".to_vec();
+                let at = (runner.rng().next_u32() as usize) % t.len();
+                t.splice(at..at, b.iter().take(3).copied());
+                b = t;
+            }
+            raw.push(b);
+        }
+    }
+    for bytes in raw.iter().filter(|b| std::str::from_utf8(b).is_err()) {
+        for mode in ["file", "prompt"] {
+            if mode == "prompt" && !lines_finish(&String::from_utf8_lossy(bytes)) {
+                continue;
+            }
+            rep.eval();
+            rep.count(&format!("cli-{mode}"));
+            rep.count("cli-input:not-utf8");
+            if let Err((class, observed)) = cli_verdict_bytes(mode, bytes) {
+                rep.violation(Violation {
+                    property: "C05".into(),
+                    driver: "command-line".into(),
+                    class: format!("{class}:not-utf8"),
+                    case: json!({"kind": "cli", "mode": mode, "bytes": bytes}),
+                    expected: "the program reports input it cannot read and ends in an orderly way".into(),
+                    observed,
+                });
+                break;
+            }
+        }
+        if rep.violations.iter().filter(|v| v.class.ends_with(":not-utf8")).count() >= 2 {
+            break;
+        }
+    }
+    let inputs = std::sync::Arc::new(inputs);
+    let shards = ctx.shards;
+    let base = Report::new("C05", "exploration", "");
+    // a defect of the program itself (it never ends at the end of input, say) fails every input: two failures per mode are
+    // enough, the rest of that mode is counted as not run
+    let failures = std::sync::Arc::new([std::sync::atomic::AtomicUsize::new(0), std::sync::atomic::AtomicUsize::new(0)]);
+    let sub = par_shards(shards, base, {
+        let inputs = inputs.clone();
+        let failures = failures.clone();
+        move |shard, r| {
+            for (i, (kind, text)) in inputs.iter().enumerate() {
+                if i % shards != shard {
+                    continue;
+                }
+                for (mi, mode) in ["file", "prompt"].into_iter().enumerate() {
+                    if failures[mi].load(std::sync::atomic::Ordering::Relaxed) >= 2 {
+                        r.count("cli:not-run-after-failures");
+                        continue;
+                    }
+                    // only inputs that end by themselves: the library finishes them (as one program / line by line) within the budget
+                    let finite = if mode == "file" { check_text(text, 300_000).0.outcome != Outcome::Budget } else { lines_finish(text) };
+                    if !finite {
+                        r.count("cli:skipped-may-not-terminate");
+                        continue;
+                    }
+                    // the prompt reads lines: invalid UTF-8 cannot come out of a String, NUL bytes are fine
+                    crate::engine::note_current("done", "");
+                    r.eval();
+                    r.count(&format!("cli-{mode}"));
+                    r.count(&format!("cli-input:{}", kind.split(':').next().unwrap_or("")));
+                    if text.split_whitespace().count() >= 3 {
+                        r.nontrivial(&format!("cli-{mode}:{text}"));
+                    }
+                    if let Err((class, observed)) = cli_verdict(mode, text) {
+                        failures[mi].fetch_add(1, std::sync::atomic::Ordering::Relaxed);
+                        r.violation(Violation {
+                            property: "C05".into(),
+                            driver: "command-line".into(),
+                            class,
+                            case: json!({"kind": "cli", "mode": mode, "text": text}),
+                            expected: "the program prints a value or an error for every input and ends with exit code 0 when its input ends".into(),
+                            observed,
+                        });
+                    }
+                }
+            }
+        }
+    });
+    rep.merge(sub);
+    rep.sample(json!({"cli-prompt": "1 +\nonbekend\n1 / 0\nstel a = 2\na + 1\n", "expects": "five answers or errors, then the end of input ends the program (exit code 0)"}));
 }
 
 /// delta debugging on characters: remove chunks while the failure persists
